@@ -184,9 +184,11 @@ def run_instance(modname, inst, seed):
 def _explore_once(mod, modname, inst, seed, W, res, t0):
     from . import core, models
     import z3
+    from .stateguard import StateGuard
     fn = getattr(mod, inst['fn'])
     params = inst['params']
     sh = models.Shadows()
+    guard = StateGuard('minecraft')
     funcs = set()
     state = {'n': 0, 'overflow': False, 'viol_keys': set()}
     # reset per-attempt counters
@@ -204,6 +206,7 @@ def _explore_once(mod, modname, inst, seed, W, res, t0):
         saved = list(sh.saved)
         log = list(sh.log)
         sh.restore()
+        guard.restore()
         try:
             return run_concrete(mod, inst['fn'], params, assignment, W,
                                 timeout_s or inst['conc_timeout_s'])
@@ -214,6 +217,7 @@ def _explore_once(mod, modname, inst, seed, W, res, t0):
             sh.log = log
 
     def body(ctx):
+        guard.restore()
         if state['n'] == 0:
             sys.setprofile(_trace_functions(funcs))
             try:
@@ -664,26 +668,34 @@ def report(pid, tier, seed, mod, results, t0):
     lines = []
     confirmed = []
     os.makedirs(os.path.join(OUT, 'replays'), exist_ok=True)
-    seen = set()
+    by_key = {}
     for v in new_viol:
-        if v['key'] in seen:
-            continue
-        seen.add(v['key'])
-        rp = write_replay(pid, mod.__name__, v)
-        rc = subprocess.run([sys.executable, '-m', 'symx.replay', rp],
-                            cwd=ROOT, capture_output=True, text=True,
-                            timeout=120)
-        if rc.returncode == 1:
-            confirmed.append((v, rp))
-        else:
-            inconclusive.append('%s: violation did not reproduce in a fresh '
-                                'process (rc=%s): %s' % (
-                                    v['instance'], rc.returncode,
-                                    (rc.stdout + rc.stderr)[-300:]))
+        by_key.setdefault(v['key'], []).append(v)
+    for key, vs in by_key.items():
+        # state kept by the code under test (caches) can leak from one
+        # explored path into the next inside a worker: a violation only
+        # counts if it reproduces in a fresh process; try a few of this key
+        last = None
+        for v in vs[:4]:
+            rp = write_replay(pid, mod.__name__, v)
+            rc = subprocess.run([sys.executable, '-m', 'symx.replay', rp],
+                                cwd=ROOT, capture_output=True, text=True,
+                                timeout=120)
+            if rc.returncode == 1:
+                confirmed.append((v, rp))
+                last = None
+                break
+            last = (v, rc)
             try:
                 os.remove(rp)
             except OSError:
                 pass
+        if last is not None:
+            v, rc = last
+            inconclusive.append('%s: violation did not reproduce in a fresh '
+                                'process (rc=%s): %s' % (
+                                    v['instance'], rc.returncode,
+                                    (rc.stdout + rc.stderr)[-300:]))
     printed_known = set()
     for v, ent in known_hit:
         if v['key'] in printed_known:
